@@ -141,6 +141,9 @@ def share_in(value):
 
 
 def check(case, ctx):
+    from yv import fuzzphase
+    if fuzzphase.note_stats(case, ctx):
+        return
     spec = case['model']
     m = models.build(spec)
     try:
@@ -262,7 +265,7 @@ def enum_pool(shard, nshards):
             i += 1
 
 
-def phases(tier):
+def _base_phases(tier):
     quick = tier != 'thorough'
     return [
         EnumPhase('adversarial_string_pool_x_positions', enum_pool,
@@ -270,3 +273,11 @@ def phases(tier):
                   % (len(set(gen.HARD_STRINGS + gen.PATHS)), len(POSITIONS))),
         HypPhase('models_x_values', cases(), 300 if quick else 5000),
     ]
+
+
+def phases(tier):
+    ph = _base_phases(tier)
+    if tier == 'thorough':
+        from yv import fuzzphase
+        ph.append(fuzzphase.struct_fuzz_phase('C05', 10000))
+    return ph
